@@ -23,6 +23,7 @@ import (
 	"pgregory.net/rapid"
 	"sigs.k8s.io/controller-runtime/pkg/client"
 
+	schedulingv1alpha2 "github.com/NVIDIA/KAI-scheduler/pkg/apis/scheduling/v1alpha2"
 	"github.com/NVIDIA/KAI-scheduler/pkg/common/constants"
 	sim "github.com/NVIDIA/KAI-scheduler/zz_verif/bindersim"
 	kit "github.com/NVIDIA/KAI-scheduler/zz_verif/verifkit"
@@ -236,11 +237,13 @@ func genCase(t *rapid.T) *Case {
 	case 0:
 		rs.Phase = "Pending"
 	case 1:
+		// an earlier attempt failed and the request may still be retried: attempts < limit (a request whose attempts
+		// are used up is the scheduler's to delete - bindrequest_info.IsFailed - and belongs to C12)
 		rs.Phase = "Failed"
-		rs.Attempts = 1
-		if rs.Backoff != nil && *rs.Backoff > 1 {
-			rs.Attempts = 1 + int32(sim.Uniform(t, int(*rs.Backoff)-1, "attempts"))
+		if rs.Backoff == nil || *rs.Backoff < 2 {
+			rs.Backoff = ptr(int32(2 + sim.Uniform(t, 3, "backoffForFailed")))
 		}
+		rs.Attempts = 1 + int32(sim.Uniform(t, int(*rs.Backoff)-1, "attempts"))
 	case 2:
 		rs.Phase = "Succeeded"
 	}
@@ -403,7 +406,26 @@ func execute(c *Case) *outcome {
 		return fail(sig, "%s", msg)
 	}
 
-	// 3. a later fault-free attempt succeeds
+	// 3. a later fault-free attempt succeeds. If the request is terminally Failed by now (phase Failed and no
+	// BackoffLimit or the persisted attempts reached it - what the scheduler reads as "give up":
+	// bindrequest_info.IsFailed, cache.cleanStaleBindRequest), the later attempt is the scheduler's: it deletes the
+	// request (delete event delivered) and creates a new one for the still pending pod.
+	if r := s2.Requests[podKey(c)]; r.Exists && r.Phase == "Failed" && (c.Req.Backoff == nil || r.Attempts >= *c.Req.Backoff) && s2.Pods[podKey(c)].Node == "" {
+		old := &schedulingv1alpha2.BindRequest{}
+		if err := s.Base.Get(context.Background(), client.ObjectKey{Namespace: c.Pod.NS, Name: c.Pod.Name}, old); err == nil {
+			_ = s.Base.Delete(context.Background(), old.DeepCopy())
+			s.Begin(0, nil)
+			proc.RequestDeleted(old)
+			o.trace.Recovery = append(o.trace.Recovery, "-- scheduler drops the terminally failed request and creates a new one --")
+			o.trace.Recovery = append(o.trace.Recovery, strs(s.TakeCalls())...)
+			fresh := c.Req
+			fresh.Phase, fresh.Attempts = "Pending", 0
+			if err := s.Base.Create(context.Background(), sim.BuildRequest(c.Pod, fresh)); err != nil {
+				return fail("harness", "cannot create the replacement request: %v", err)
+			}
+			o.classes = append(o.classes, "request-replaced-by-scheduler")
+		}
+	}
 	s.Begin(0, nil)
 	_, err, pn = proc.Reconcile(c.Pod.NS, c.Pod.Name)
 	retry := s.TakeCalls()
@@ -815,7 +837,7 @@ func contains(xs []string, x string) bool {
 // the property
 
 func classesOf(c *Case, o *outcome, mode string) []string {
-	cl := []string{"kind:" + c.Pod.Kind, "mode:" + mode}
+	cl := append([]string{"kind:" + c.Pod.Kind, "mode:" + mode}, o.classes...)
 	add := func(b bool, s string) {
 		if b {
 			cl = append(cl, s)
